@@ -219,7 +219,9 @@ def seam_and_corner_pairs(rng, gamma, n, with_addr=False):
     base = 2 if (closed and K == 1) else 0   # one-piece closed curve: at least 4 elements around it
     for _ in range(n):
         i, j = base + rng.randint(0, 4), base + rng.randint(0, 4)
-        kind = rng.choice(['seam', 'seam', 'corner', 'nested', 'interior'] if closed else ['corner', 'nested', 'interior'])
+        kind = rng.choice(['seam', 'seam', 'corner', 'nested', 'interior', 'gap'] if closed else
+                          ['corner', 'nested', 'interior', 'gap'])
+        tpair = None
         if kind == 'seam':
             A, B = (0, i, 0), (K - 1, j, 2**j - 1)
         elif kind == 'corner' and K > 1:
@@ -228,6 +230,28 @@ def seam_and_corner_pairs(rng, gamma, n, with_addr=False):
         elif kind == 'corner':
             k4 = rng.randrange(1, 4)   # circle: an interior multiple of a quarter
             A, B = (0, i, k4 * 2**(i - 2) - 1), (0, j, k4 * 2**(j - 2))
+        elif kind == 'gap' and (K > 1 or closed):
+            # disjoint, NOT touching, but close (a gap of 1-3 small elements) across a break point or the seam, sizes
+            # differing by a factor 8..128, in two touching thin time slabs (leaves of different slabs of a mesh graded
+            # towards a corner at small times): the choice of the graded rule for disjoint panels matters here
+            k = rng.randrange(0 if closed else 1, K)
+            ia = base + rng.randint(0, 2)
+            jb = ia + rng.randint(3, 7)
+            gap = rng.randint(1, 3)
+            if rng.random() < 0.5:
+                A, B = ((k - 1) % K, ia, 2**ia - 1), (k, jb, gap)
+            else:
+                A, B = (k, ia, 0), ((k - 1) % K, jb, 2**jb - 1 - gap)
+            hA = addr_interval(gamma, A)
+            hA = hA[1] - hA[0]
+            l = 0
+            while hA * hA * 2.0**l > 32.0:      # thinnest slab the aspect bound admits for the larger element
+                l -= 1
+            while hA * hA * 2.0**(l + 1) <= 32.0:
+                l += 1
+            ht = 2.0**-(l - rng.randint(0, 2))
+            r = 2.0**-rng.randint(1, 3)
+            tpair = ((ht, 2 * ht), (ht - ht * r, ht)) if rng.random() < 0.7 else ((ht - ht * r, ht), (ht, 2 * ht))
         elif kind == 'interior':
             # strictly nested, no common end point (a < c < d < b): leaves of different time slabs whose space levels
             # differ by >= 2, or a leaf against a space child of a one-level-finer leaf of another slab
@@ -244,7 +268,7 @@ def seam_and_corner_pairs(rng, gamma, n, with_addr=False):
             jb = ia + (j - base)
             A, B = (k, ia, ma), (k, jb, ma * 2**(jb - ia) + rng.randrange(2**(jb - ia)))
         a, b = addr_interval(gamma, A), addr_interval(gamma, B)
-        ta, tb = rng.choice(times), rng.choice(times)
+        ta, tb = tpair if tpair is not None else (rng.choice(times), rng.choice(times))
         t_overlap = max(ta[0], tb[0]) < min(ta[1], tb[1])
         x_overlap = max(a[0], b[0]) < min(a[1], b[1])
         ratio = max((a[1] - a[0]) / (b[1] - b[0]), (b[1] - b[0]) / (a[1] - a[0]))
